@@ -56,7 +56,40 @@ func (c *Ctx) ruleU1(rule string) {
 			}
 		})
 		_ = m
-		c.Check(rule, key, ok, ld.Pos(), "one snapshot of rb.Kc taken before anything runs")
+		// helpers called from the execution must not read the published container again
+		reread := ""
+		seenF := map[*ssa.Function]bool{}
+		var visit func(g *ssa.Function, depth int)
+		visit = func(g *ssa.Function, depth int) {
+			if g == nil || seenF[g] || g.Blocks == nil || depth > 6 {
+				return
+			}
+			seenF[g] = true
+			eachInstrDeep(g, func(h *ssa.Function, in ssa.Instruction) {
+				if g != fn {
+					if u, ok := in.(*ssa.UnOp); ok && u.Op == token.MUL && isKcFieldAddr(u.X) && reread == "" {
+						reread = fnName(g)
+					}
+				}
+				if cc := callCommon(in); cc != nil {
+					cal := cc.StaticCallee()
+					if cal == nil || cal.Pkg == nil || !strings.HasPrefix(cal.Pkg.Pkg.Path(), modPath) {
+						return
+					}
+					// the rule interpreter and the data context do not receive the rule builder
+					pk := cal.Pkg.Pkg.Path()
+					if pk == pBase || pk == pContext || pk == pCore || pk == pIter {
+						return
+					}
+					visit(cal, depth+1)
+				}
+			})
+		}
+		visit(fn, 0)
+		if reread != "" {
+			ok = false
+		}
+		c.Check(rule, key, ok, ld.Pos(), "one snapshot of rb.Kc taken before anything runs%s", map[bool]string{true: "", false: " — but " + reread + ", called from this execution, reads the published container again"}[reread == ""])
 	}
 }
 
